@@ -749,6 +749,256 @@ def compare_sql(db, sql, ordered, which=("sqlite", "duckdb")):
     return "agree", ""
 
 
+
+# ------------------------------------------------------------------------------------------ single-table queries (plan model)
+QCOLS = ["a", "b", "c"]
+AGGS_INT = ["SUM", "COUNT", "MIN", "MAX"]
+AGGS_TEXT = ["COUNT", "MIN", "MAX"]
+
+
+def rand_squery(rng, wf=False):
+    """Query IR of Sem.Query (Lean): one table x(a INT, b INT, c TEXT).  wf=True stays inside the preconditions of
+    single_table_query_spec; otherwise duplicate / shadowing names and DISTINCT+ORDER BY may occur (the model mirrors
+    the executor there too)."""
+    q = {"cols": QCOLS, "where": rand_expr(rng, 3, depth=rng.choice([0, 1, 2])) if rng.random() < 0.5 else None}
+    grouped = rng.random() < 0.55
+    names_pool = ["p", "q", "r", "s", "m", "n"] + ([] if wf else ["a", "b", "c", "p"])
+    used = []
+
+    def alias(default=None):
+        if default is not None and rng.random() < 0.6 and (not wf or default not in used):
+            n = default
+        else:
+            cands = [n for n in names_pool if not wf or n not in used]
+            n = rng.choice(cands)
+        used.append(n)
+        return n
+
+    outs = []
+    if not grouped:
+        q["group"] = None
+        for _ in range(rng.randint(1, 3)):
+            c = rng.randrange(3)
+            outs.append(["col", c, alias(QCOLS[c])])
+        q["having"] = None
+    else:
+        keys = rng.choice([[], [0], [2], [0, 2], [1, 0], [0]])
+        q["group"] = keys
+        for k in keys:
+            if rng.random() < 0.8:
+                outs.append(["col", k, alias(QCOLS[k])])
+        for _ in range(rng.randint(0 if outs else 1, 2)):
+            c = rng.randrange(3)
+            outs.append(["agg", rng.choice(AGGS_TEXT if c == 2 else AGGS_INT), c, alias()])
+        rng.shuffle(outs)
+        if rng.random() < 0.3:
+            c = rng.randrange(3)
+            q["having"] = [rng.choice(AGGS_TEXT if c == 2 else AGGS_INT), c, rng.choice(["eq", "ne", "lt", "le", "gt", "ge"]),
+                           rng.choice(STRS) if c == 2 and True else rng.choice(INTS)]
+            if c == 2 and q["having"][0] == "COUNT":
+                q["having"][3] = rng.choice([0, 1, 2])
+        else:
+            q["having"] = None
+    q["outs"] = outs
+    q["distinct"] = rng.random() < 0.25
+    order = []
+    if rng.random() < (0.5 if not (wf and q["distinct"]) else 0.0):
+        pos = list(range(len(outs)))
+        rng.shuffle(pos)
+        total = wf or rng.random() < 0.7
+        for p_ in (pos if total else pos[: rng.randint(1, len(pos))]):
+            order.append([p_, rng.random() < 0.5, rng.random() < 0.5])
+    q["order"] = order
+    q["limit"], q["offset"] = None, 0
+    if order and rng.random() < 0.5:
+        q["limit"] = rng.choice([0, 1, 2, 3])
+        q["offset"] = rng.choice([0, 0, 1, 2])
+    elif not wf and not order and rng.random() < 0.1:
+        q["limit"] = rng.choice([1, 2])
+    return q
+
+
+def squery_sql(q):
+    names3 = [("x", c) for c in QCOLS]
+    sel = []
+    for o in q["outs"]:
+        if o[0] == "col":
+            sel.append(f"x.{QCOLS[o[1]]} AS {o[2]}")
+        else:
+            sel.append(f"{o[1]}(x.{QCOLS[o[2]]}) AS {o[3]}")
+    sql = "SELECT " + ("DISTINCT " if q["distinct"] else "") + ", ".join(sel) + " FROM x"
+    if q["where"] is not None:
+        sql += " WHERE " + sql_of(q["where"], names3)
+    if q["group"]:
+        sql += " GROUP BY " + ", ".join(f"x.{QCOLS[k]}" for k in q["group"])
+    if q["having"] is not None:
+        f, c, op, lit = q["having"]
+        sym = {"eq": "=", "ne": "<>", "lt": "<", "le": "<=", "gt": ">", "ge": ">="}[op]
+        sql += f" HAVING {f}(x.{QCOLS[c]}) {sym} " + (("'%s'" % lit) if isinstance(lit, str) else str(lit))
+    if q["order"]:
+        keys = []
+        for p_, d, nf in q["order"]:
+            o = q["outs"][p_]
+            ref = f"x.{QCOLS[o[1]]}" if q["group"] is None else o[-1]
+            keys.append(f"{ref} {'DESC' if d else 'ASC'} NULLS {'FIRST' if nf else 'LAST'}")
+        sql += " ORDER BY " + ", ".join(keys)
+    if q["limit"] is not None:
+        sql += f" LIMIT {q['limit']} OFFSET {q['offset']}"
+    return sql
+
+
+def real_dag(sql):
+    """the real Step DAG of the optimized query, in the shape the Lean `plan` prints"""
+    from sqlglot import exp, planner
+    from sqlglot.optimizer import optimize
+
+    schema = {"x": {"a": "INT", "b": "INT", "c": "TEXT"}}
+    e = optimize(sql, schema, leave_tables_isolated=True)
+    root = planner.Plan(e).root
+
+    def projs(st):
+        out = []
+        for p_ in st.projections:
+            inner = p_.this if isinstance(p_, exp.Alias) else p_
+            if not isinstance(inner, exp.Column):
+                return "unsupported:" + p_.sql()
+            out.append([inner.name, p_.alias_or_name])
+        return out
+
+    def lim(st):
+        return None if math.isinf(st.limit) else int(st.limit)
+
+    def rec(st):
+        deps = list(st.dependencies)
+        if isinstance(st, planner.Scan):
+            if deps or st.projections or st.condition or lim(st) is not None or st.offset:
+                return {"kind": "Scan", "extra": True}
+            return {"kind": "Scan"}
+        if len(deps) != 1:
+            return {"kind": type(st).__name__, "deps": len(deps)}
+        base = {"projs": projs(st), "limit": lim(st), "offset": st.offset, "dep": rec(deps[0])}
+        if isinstance(st, planner.Join):
+            if st.joins:
+                return {"kind": "Join", "joins": len(st.joins)}
+            return {"kind": "Join", "cond": st.condition is not None, **base}
+        if isinstance(st, planner.Aggregate):
+            aggs, hav = [], None
+            for a in st.aggregations:
+                if a.alias == "_h":
+                    h = a.this
+                    op = {"EQ": "eq", "NEQ": "ne", "LT": "lt", "LTE": "le", "GT": "gt", "GTE": "ge"}.get(type(h).__name__, type(h).__name__)
+                    lit = h.expression
+                    v = None if isinstance(lit, exp.Null) else (lit.this if lit.is_string else int(lit.sql()))
+                    hav = [type(h.this).__name__.upper(), h.this.this.name, op, v]
+                else:
+                    aggs.append([type(a.this).__name__.upper(), a.this.this.name if isinstance(a.this.this, exp.Column) else a.this.sql(), a.alias])
+            d = {"kind": "Aggregate", "group": [[k, v.name] for k, v in st.group.items()], "aggs": aggs, "hav": hav, **base}
+            if st.operands:
+                d["operands"] = [o.sql() for o in st.operands]
+            if (st.condition is not None) != (hav is not None):
+                d["cond"] = st.condition.sql() if st.condition is not None else None
+            return d
+        if isinstance(st, planner.Sort):
+            key = []
+            for k in st.key:
+                if not isinstance(k.this, exp.Column):
+                    return {"kind": "Sort", "key": "unsupported:" + k.sql()}
+                key.append([k.this.name, bool(k.args.get("desc")), bool(k.args.get("nulls_first"))])
+            return {"kind": "Sort", "key": key, **base}
+        return {"kind": type(st).__name__}
+
+    return rec(root)
+
+
+def squery_wf(q):
+    """the preconditions of single_table_query_spec (Query.WF in Lean)"""
+    names = [o[-1] for o in q["outs"]]
+    if len(set(names)) != len(names):
+        return False
+    if q["distinct"] and q["order"]:
+        return False
+    if (q["limit"] is not None or q["offset"]) and not q["order"]:
+        return False
+    if q["group"] is None:
+        # an alias equal to a table column's name must project that column (else it shadows it in the Sort sink)
+        if q["order"] and any(o[2] in QCOLS and QCOLS[o[1]] != o[2] for o in q["outs"]):
+            return False
+    else:
+        if any(n.startswith("_") for n in names):
+            return False
+    if q["order"] and sorted(p_ for p_, _, _ in q["order"]) != list(range(len(q["outs"]))):
+        return False  # sequence claims need a total ORDER BY
+    return True
+
+
+def correspond_plan(chk: Check) -> None:
+    """plan model vs real Step.from_expression (DAG shape), exec model vs real execute() (exact sequence), and the
+    reference Query.eval vs SQLite / DuckDB on well-formed queries"""
+    rng = chk.rng
+    n = chk.pick(260, 2600)
+    qs, dbs, lines = [], [], []
+    for i in range(n):
+        q = rand_squery(rng, wf=rng.random() < 0.6)
+        rows = rand_rows(rng, 5)
+        qs.append(q)
+        dbs.append(rows)
+        lines.append(json.dumps({"op": "plan", "q": q}))
+        lines.append(json.dumps({"op": "exec_plan", "q": q, "rows": rows_json(rows)}))
+        lines.append(json.dumps({"op": "sem_query", "q": q, "rows": rows_json(rows)}))
+    got = chk.driver("C11", lines)
+    shape_bad = exec_bad = sem_checked = 0
+    for i, (q, rows) in enumerate(zip(qs, dbs)):
+        sql = squery_sql(q)
+        mplan, mexec, msem = (json.loads(x) for x in got[3 * i: 3 * i + 3])
+        for m in (mplan, mexec, msem):
+            if isinstance(m, str) and m.startswith("bad-op"):
+                raise HarnessError(f"model driver C11 rejected query {q}: {m}")
+        chk.count("corr:plan")
+        try:
+            rplan = real_dag(sql)
+        except Exception as e:  # noqa
+            rplan = "raised:" + type(e).__name__
+        # optimize() may simplify a tautological WHERE away before the planner sees it: not a planner difference
+        def join_of(d):
+            while isinstance(d, dict) and d.get("kind") != "Join" and "dep" in d:
+                d = d["dep"]
+            return d if isinstance(d, dict) and d.get("kind") == "Join" else None
+
+        jm, jr = join_of(mplan), join_of(rplan) if isinstance(rplan, dict) else None
+        if jm and jr and jm.get("cond") is True and jr.get("cond") is False:
+            jm["cond"] = False
+            chk.count("plan:where-simplified-away-by-optimize")
+        if canon(rplan) != canon(mplan):
+            shape_bad += 1
+            chk.correspondence_broken("plan: Step DAG of Step.from_expression differs from the model", {"sql": sql, "model": mplan, "impl": rplan})
+        db = {"x": rows, "y": [], "z": []}
+        real = run_sqlglot(db, sql)
+        if real[0] in ("execute_error", "sqlglot_error", "leak"):
+            r = "key-error" if real[0] == "execute_error" else "raised:" + real[0]
+        else:
+            r = {"cols": real[0], "rows": real[1]}
+        m = mexec
+        if isinstance(m, dict):
+            m = {"cols": m["cols"], "rows": Engines._norm([tuple(x) for x in m["rows"]])}
+        chk.case(("plan", sql, rows), nontrivial=bool(rows), sample={"sql": sql, "rows": rows, "answer": r} if i % 211 == 0 else None)
+        if canon(m) != canon(r):
+            exec_bad += 1
+            chk.correspondence_broken("exec(plan q): model and execute() differ", {"sql": sql, "rows": rows, "model": m, "impl": r})
+        if squery_wf(q):
+            ordered = bool(q["order"])
+            eng = engines().run(db, sql)
+            for name, ans in eng.items():
+                if ans[0] == "error":
+                    raise HarnessError(f"assumption check: {name} rejected {sql!r}: {ans[1]}")
+                want = ans[1] if ordered else sorted(ans[1], key=sort_rows_key)
+                have = Engines._norm([tuple(x) for x in msem])
+                have = have if ordered else sorted(have, key=sort_rows_key)
+                sem_checked += 1
+                if canon(want) != canon(have):
+                    raise HarnessError(f"assumption A-engine fails: Sem.Query.eval and {name} differ on {sql!r} over {rows}: Sem -> {have}, {name} -> {want}")
+    chk.corr_cases += n
+    chk.cov["plan_model"] = {"queries": n, "dag_shape_disagreements": shape_bad, "exec_disagreements": exec_bad, "sem_vs_engine_comparisons": sem_checked}
+
 # ---- the Lean reference semantics against the engines (assumption A-engine / A-duck)
 def validate_sem(chk: Check) -> None:
     rng = chk.rng
@@ -1141,6 +1391,7 @@ def run(chk: Check) -> None:
     try:
         validate_sem(chk)
         hints = correspond(chk)
+        correspond_plan(chk)
     except HarnessError as e:
         if proved:
             raise
